@@ -298,7 +298,24 @@ pub fn batch_mutations(ctx: &mut Ctx, prop: &str, n: usize) {
         let c = match new_case(ctx, &mut rng, &id0, npoly) { Some(c) => c, None => continue };
         let cs = match c.comm_scalars() { Some(x) => x, None => continue };
         let nl = range(&mut rng, 2, 3);
-        let (qs, ev) = gen_queries(&mut rng, &c, nl);
+        let (mut qs, mut ev) = gen_queries(&mut rng, &c, nl);
+        if i % 3 == 1 {
+            // two point labels carrying ONE point value, disjoint polynomials under them (+ a third label elsewhere)
+            qs = ark_poly_commit::QuerySet::new();
+            ev = ark_poly_commit::Evaluations::new();
+            let z = Fr::rand(&mut rng);
+            let z2 = Fr::rand(&mut rng);
+            for (j, p) in c.polys.iter().enumerate() {
+                let (pl, pt) = match j { 0 => ("pt0", z), 1 => ("pt1", z), _ => ("pt2", z2) };
+                qs.insert((p.label().clone(), (pl.to_string(), pt)));
+                ev.insert((p.label().clone(), pt), p.evaluate(&pt));
+            }
+            if coin(&mut rng) {
+                let p = &c.polys[0];
+                qs.insert((p.label().clone(), ("pt2".to_string(), z2)));
+                ev.insert((p.label().clone(), z2), p.evaluate(&z2));
+            }
+        }
         let (proofs, ws) = match batch_open(ctx, &mut rng, &id0, &c, &qs) { Ok(x) => x, Err(_) => continue };
         if ws.len() != proofs.len() || !ws.iter().zip(&proofs).all(|(w, p)| g1(*w) == p.w) { continue; }
         let rvs: Vec<Option<Fr>> = proofs.iter().map(|p| p.random_v).collect();
@@ -341,7 +358,7 @@ pub fn batch_mutations(ctx: &mut Ctx, prop: &str, n: usize) {
         {
             let groups = crate::generic::group(&qs);
             let mut k = 0usize; // index into the challenge stream
-            let mut per_group: Vec<Option<(String, Fr, Fr)>> = vec![]; // (label, point, challenge) of one unbounded poly
+            let mut per_group: Vec<Vec<(String, Fr, Fr)>> = vec![]; // (label, point, challenge) of the unbounded polys
             let mut xis: Vec<Fr> = vec![];
             {
                 // the verifier's challenges on a fresh sponge are the prover's (lock-step): replay them
@@ -351,21 +368,33 @@ pub fn batch_mutations(ctx: &mut Ctx, prop: &str, n: usize) {
                 xis = sp.challenges();
             }
             for (_, pt, labels) in &groups {
-                let mut pick = None;
+                let mut cands = vec![];
                 for l in labels {
                     let p = c.polys.iter().find(|p| p.label() == l).unwrap();
                     if k >= xis.len() { break; }
-                    if p.degree_bound().is_none() && pick.is_none() { pick = Some((l.clone(), *pt, xis[k])); }
+                    if p.degree_bound().is_none() && !xis[k].is_zero() { cands.push((l.clone(), *pt, xis[k])); }
                     k += 1 + p.degree_bound().is_some() as usize;
                 }
-                per_group.push(pick);
+                per_group.push(cands);
             }
-            let avail: Vec<usize> = (0..per_group.len()).filter(|&g| per_group[g].as_ref().map(|x| !x.2.is_zero()).unwrap_or(false)).collect();
-            if avail.len() >= 2 {
-                let (ga, gb) = (avail[0], avail[1]);
-                let (la, pa, xa) = per_group[ga].clone().unwrap();
-                let (lb, pb, xb) = per_group[gb].clone().unwrap();
-                if (la.clone(), pa) != (lb.clone(), pb) {
+            // prefer two point labels that carry the SAME point value and two polynomials each queried under only
+            // one of them (then the two per-label equations differ only by the verifier's randomizers)
+            let mut best: Option<(usize, usize, (String, Fr, Fr), (String, Fr, Fr), bool)> = None;
+            for ga in 0..per_group.len() {
+                for gb in ga + 1..per_group.len() {
+                    for ca in &per_group[ga] {
+                        for cb in &per_group[gb] {
+                            if (ca.0.clone(), ca.1) == (cb.0.clone(), cb.1) { continue; }
+                            let same = ca.1 == cb.1 && !groups[gb].2.contains(&ca.0) && !groups[ga].2.contains(&cb.0);
+                            if best.is_none() || (same && !best.as_ref().unwrap().4) {
+                                best = Some((ga, gb, ca.clone(), cb.clone(), same));
+                            }
+                        }
+                    }
+                }
+            }
+            if let Some((ga, gb, (la, pa, xa), (lb, pb, xb), same)) = best {
+                {
                     let id = format!("{}/weighted-cancel@{},{}", id0, ga, gb);
                     let dd = rand_nonzero(&mut rng);
                     let mut ev2 = ev.clone();
@@ -375,7 +404,7 @@ pub fn batch_mutations(ctx: &mut Ctx, prop: &str, n: usize) {
                     if out == Outcome3::Accept {
                         ctx.rep.expect_fail(&id, "marlin/false-claim-accepted/batch-weighted-cancelling", "errors cancelling under the challenge weights across two query points accepted", replay(&c, &id, ctx.seed, "challenge-weighted cancelling errors"));
                     }
-                    ctx.rep.count("marlin/batch-weighted-cancel");
+                    ctx.rep.count(if same { "marlin/batch-weighted-cancel-equal-point-values" } else { "marlin/batch-weighted-cancel" });
                     ctx.rep.case(&format!("{} batch weighted-cancel out={:?}", c.desc(), out), Some(format!("marlin-batch/{}/{}/wcancel", npoly, nl)));
                 }
             }
